@@ -41,6 +41,191 @@ def _expr(src, env=None):
     return e.ev(ast.parse(src, mode='eval').body)
 
 
+def _r5_radiation_function(run, prog):
+    """R5: RadiationFunction spreads the power density uniformly over the observed window: every bin receives
+    f(x, y, z) / (4 pi (max - min wavelength)), added to what the spectrum holds."""
+    from ..inline import propagate
+    run.describe('C03-R5', 'RadiationFunction: every bin gets f(x, y, z) / (4 pi (max - min wavelength)) added')
+    rel = 'cherab/tools/emitters/radiation_function.pyx'
+    mi = prog.load(rel, required=False)
+    if mi is None:
+        raise AnalysisError('anchored source file vanished: %s' % rel)
+    run.use_file(rel)
+    ci = prog.classes.get(mi.name + '.RadiationFunction')
+    fn0 = ci.methods.get('emission_function') if ci is not None else None
+    if fn0 is None:
+        raise AnalysisError('anchored method vanished: RadiationFunction.emission_function')
+    fn = propagate(fn0)
+    K = mi.name + '|RadiationFunction|emission_function|'
+    names = [a.arg for a in fn.args.args]
+    point, spectrum, ray = names[1], names[3], names[5]
+    run.subject('C03-R5')
+    sts = [st for st in ast.walk(fn) if isinstance(st, (ast.AugAssign, ast.Assign)) and norm(st.targets[0] if isinstance(st, ast.Assign) else st.target).startswith(spectrum + '.samples_mv[')]
+    loops = [l for l in ast.walk(fn) if isinstance(l, ast.For) and any(st in list(ast.walk(l)) for st in sts)]
+    if len(sts) != 1 or len(loops) != 1:
+        run.undecided('C03-R5', 'RadiationFunction', 'one store into the spectrum inside one loop expected, found %d / %d' % (len(sts), len(loops)))
+        return
+    st, lp = sts[0], loops[0]
+    if not (isinstance(st, ast.AugAssign) and isinstance(st.op, ast.Add)):
+        run.fail('C03-R5', K + 'store', rel, st.lineno, 'RadiationFunction assigns %s: what other emitters along the ray put into the spectrum is '
+                 'overwritten instead of added to' % norm(st)[:60])
+        return
+    idx = norm(st.target.slice)
+    if not (isinstance(lp.target, ast.Name) and lp.target.id == idx and norm(lp.iter) in ('range(%s.bins)' % spectrum, 'range(0, %s.bins)' % spectrum)):
+        run.fail('C03-R5', K + 'bins', rel, lp.lineno, 'RadiationFunction fills %s over %s: not every bin of the spectrum receives the emission' % (norm(st.target), norm(lp.iter)))
+        return
+    ev = EmEval()
+    try:
+        got = ev.ev(st.value)
+        F = 'self.radiation_function.evaluate(%s.x, %s.y, %s.z)' % (point, point, point)
+        want = ev.ev(ast.parse('__F__ / (4 * M_PI * (%s.get_max_wavelength() - %s.get_min_wavelength()))' % (ray, ray), mode='eval').body)
+        fl = [l for l in got.leaves() if 'radiation_function' in l]
+        want = want.subst({'__F__': L(fl[0])}) if len(fl) == 1 else want
+        leaf_ok = len(fl) == 1 and fl[0].replace(' ', '') == F.replace(' ', '')
+    except Exception as e:
+        run.undecided('C03-R5', 'RadiationFunction', 'emission not interpreted: %s' % str(e)[:50])
+        return
+    if got.eq(want) and leaf_ok:
+        run.ok('C03-R5', 'RadiationFunction', 'f(x, y, z) / (4 pi (max - min)) added to every bin')
+    else:
+        run.fail('C03-R5', K + 'emission', rel, st.lineno, 'RadiationFunction adds %s to every bin; documented: the radiation function at the point '
+                 '(x, y, z) divided by 4 pi and by the width of the observed window' % got.key()[:120])
+
+
+def _r6_gaunt(run, prog):
+    """R6: the free-free Gaunt factor bremsstrahlung takes from the provider: gamma^2 = z^2 Ry / T, u = hc / (lambda T) (eV, nm); zero for
+    z = 0, one in the classical limit (u or gamma^2 at or above the tabulated maximum), the Born approximation
+    sqrt(3)/pi (ln(4/u) - gamma_E) below the tabulated minimum, the table interpolated in (log10 u, log10 gamma^2) otherwise."""
+    from ..pathinterp import PathInterp
+    run.describe('C03-R6', 'InterpolatedFreeFreeGauntFactor: definitions of u and gamma^2, region table (zero / classical / Born / interpolated), table axes')
+    rel = 'cherab/core/atomic/gaunt.pyx'
+    mi = prog.load(rel, required=False)
+    if mi is None:
+        raise AnalysisError('anchored source file vanished: %s' % rel)
+    run.use_file(rel)
+    ci = prog.classes.get(mi.name + '.InterpolatedFreeFreeGauntFactor')
+    if ci is None or 'evaluate' not in ci.methods or '__init__' not in ci.methods:
+        raise AnalysisError('anchored class vanished: InterpolatedFreeFreeGauntFactor')
+    fn = ci.methods['evaluate']
+    K = mi.name + '|InterpolatedFreeFreeGauntFactor|'
+    z, T, wl = [a.arg for a in fn.args.args[1:4]]
+    ev = EmEval()
+    # the photon-energy factor h c / e in eV nm
+    run.subject('C03-R6')
+    ph = mi.assigns.get('PH_TO_EV_FACTOR')
+    try:
+        phv = ev.ev(ph) if ph is not None else None
+    except Exception:
+        phv = None
+    if phv is None:
+        run.undecided('C03-R6', 'PH_TO_EV_FACTOR', 'not found / not interpreted')
+    elif phv.eq(L('PLANCK_CONSTANT') * L('SPEED_OF_LIGHT') * C(10 ** 9) / L('ELEMENTARY_CHARGE')):
+        run.ok('C03-R6', 'PH_TO_EV_FACTOR', 'h c 1e9 / e')
+    else:
+        run.fail('C03-R6', K + 'ph-factor', rel, getattr(ph, 'lineno', 1), 'PH_TO_EV_FACTOR is %s; documented: h c / e in eV nm '
+                 '(PLANCK_CONSTANT * SPEED_OF_LIGHT * 1e9 / ELEMENTARY_CHARGE)' % phv.key()[:80])
+    U = L('PH_TO_EV_FACTOR') / (L(T) * L(wl))
+    G = L(z) * L(z) * L('RYDBERG_CONSTANT_EV') / L(T)
+    try:
+        paths = PathInterp(fn, (), {}, evaluator=EmEval, max_paths=128, resolve_keys=True).run()
+    except Exception as e:
+        run.subject('C03-R6')
+        run.undecided('C03-R6', 'evaluate', 'not interpreted: %s' % str(e)[:50])
+        return
+    atoms = {'%s == 0' % z: 'z0', '%s >= self._u_max' % U.key(): 'uhi', '%s >= self._gamma2_max' % G.key(): 'ghi',
+             '%s < self._u_min' % U.key(): 'ulo', '%s < self._gamma2_min' % G.key(): 'glo'}
+    e2 = EmEval()
+    e2.env['__U__'] = U
+    born = e2.ev(ast.parse('sqrt(3) / M_PI * (log(4 / __U__) - 0.5772156649015329)', mode='eval').body)
+    interp = None
+
+    def expected(a):
+        if a['z0']:
+            return 'zero'
+        if a['uhi'] or a['ghi']:
+            return 'one'
+        if a['ulo'] or a['glo']:
+            return 'born'
+        return 'table'
+    import itertools as _it
+    bad = und = None
+    n = 0
+    for p in paths:
+        if p.returned is None:
+            continue
+        fixed = {}
+        unknown = [k for k, b in p.decisions if k not in atoms]
+        if unknown:
+            import re as _re
+            m_ = _re.match(r'^(.*) (>=|<) self\._(u|gamma2)_(max|min)$', unknown[0])
+            if m_ and bad is None:
+                bad = (p, "the %s that is compared with the tabulated range is %s; documented: %s" % (
+                    'photon-energy parameter u' if m_.group(3) == 'u' else 'parameter gamma^2', m_.group(1)[:80],
+                    'hc / (lambda T) = PH_TO_EV_FACTOR / (temperature * wavelength)' if m_.group(3) == 'u' else 'z^2 Ry / T'))
+            else:
+                und = 'test %s' % unknown[0][:60]
+            continue
+        for k, b in p.decisions:
+            fixed[atoms[k]] = b
+        exp = set()
+        for vals in _it.product((False, True), repeat=5):
+            a = dict(zip(('z0', 'uhi', 'ghi', 'ulo', 'glo'), vals))
+            if any(a[k] != v for k, v in fixed.items()) or (a['uhi'] and a['ulo']) or (a['ghi'] and a['glo']):
+                continue
+            exp.add(expected(a))
+        n += 1
+        r = p.returned
+        kind = None
+        if r.is_const() and r.const_value() == 0:
+            kind = 'zero'
+        elif r.is_const() and r.const_value() == 1:
+            kind = 'one'
+        elif r.eq(born):
+            kind = 'born'
+        elif len(r.leaves()) == 1 and list(r.leaves())[0].startswith('self._gaunt_factor.evaluate('):
+            kind = 'table'
+            want_leaf = 'self._gaunt_factor.evaluate(log10(%s), log10(%s))' % (U.key(), G.key())
+            if list(r.leaves())[0] != want_leaf or not r.eq(L(want_leaf)):
+                bad = (p, 'the table is read at %s; documented: (log10 u, log10 gamma^2) with u = hc / (lambda T), gamma^2 = z^2 Ry / T' % r.key()[:100])
+        else:
+            kind = 'other'
+        if exp != {kind} and bad is None:
+            bad = (p, 'where %s it returns %s; documented for that region: %s' % (dict(p.decisions) and ' and '.join(
+                ('' if b else 'not ') + atoms[k] for k, b in p.decisions), {'zero': '0', 'one': '1', 'born': 'the Born approximation',
+                                                                            'table': 'the interpolated table', 'other': r.key()[:60]}[kind], sorted(exp)))
+    run.subject('C03-R6')
+    if bad:
+        run.fail('C03-R6', K + 'evaluate|regions', rel, fn.lineno, 'InterpolatedFreeFreeGauntFactor.evaluate: %s (z0: z = 0; uhi / ghi: u / gamma^2 at or above '
+                 'the tabulated maximum; ulo / glo: below the minimum; Born: sqrt(3)/pi (ln(4/u) - Euler gamma))' % bad[1])
+    elif und or not n:
+        run.undecided('C03-R6', 'evaluate', und or 'no returning path')
+    else:
+        run.ok('C03-R6', 'evaluate', '%d paths: 0 for z = 0, 1 in the classical limit, Born below the table, table otherwise' % n)
+    # constructor: the table axes are log10(u), log10(gamma2); the limits are the extremes of the axes
+    init = ci.methods['__init__']
+    run.subject('C03-R6')
+    un, gn, fnm = [a.arg for a in init.args.args[1:4]]
+    calls = [c for c in ast.walk(init) if isinstance(c, ast.Call) and (dotted(c.func) or '').split('.')[-1] == 'Interpolator2DArray']
+    lim = {norm(st.targets[0]): norm(st.value) for st in ast.walk(init) if isinstance(st, ast.Assign) and norm(st.targets[0]) in
+           ('self._u_min', 'self._u_max', 'self._gamma2_min', 'self._gamma2_max')}
+    want_lim = {'self._u_min': '%s.min()' % un, 'self._u_max': '%s.max()' % un, 'self._gamma2_min': '%s.min()' % gn, 'self._gamma2_max': '%s.max()' % gn}
+    if len(calls) != 1 or len(calls[0].args) < 4:
+        run.undecided('C03-R6', '__init__', 'Interpolator2DArray call not found')
+    else:
+        a = [norm(x) for x in calls[0].args]
+        axes_ok = a[0] in ('np.log10(%s)' % un, 'numpy.log10(%s)' % un) and a[1] in ('np.log10(%s)' % gn, 'numpy.log10(%s)' % gn) and a[2] == fnm
+        if not axes_ok:
+            run.fail('C03-R6', K + '__init__|axes', rel, calls[0].lineno, 'the Gaunt factor table is interpolated over (%s, %s) with data %s; evaluate() reads it at '
+                     '(log10 u, log10 gamma^2) of the table given as (u, gamma2, gaunt_factor)' % (a[0], a[1], a[2]))
+        elif lim != want_lim:
+            d = sorted(k for k in want_lim if lim.get(k) != want_lim[k])[0]
+            run.fail('C03-R6', K + '__init__|limits', rel, init.lineno, '%s is %s; the regions of evaluate() are delimited by the extremes of the tabulated axes (%s)'
+                     % (d, lim.get(d), want_lim[d]))
+        else:
+            run.ok('C03-R6', '__init__', 'table over (log10 u, log10 gamma2); limits are the axis extremes')
+    run.floor('C03-R6', 3)
+
+
 def check(run):
     prog = Program()
     prog.load_many(FILES)
@@ -73,6 +258,8 @@ def check(run):
     _r2(run, classes)
     _r3(run, classes)
     _r4(run, prog)
+    _r5_radiation_function(run, prog)
+    _r6_gaunt(run, prog)
     run.include('C01', {f for f in FILES if f.endswith('.pyx') and '/model/plasma/' in f} | {'cherab/core/plasma/node.pyx', 'cherab/core/plasma/model.pyx', 'cherab/core/utility/notify.py'},
                 'the rates and species a model caches must follow changes of the plasma and the atomic data')
     from ..cachekey import check_caches
